@@ -326,3 +326,54 @@ func init() {
 	// is a ceiling, ReconnectTime the floor and the value after a success)
 	register(&Scenario{Name: "reconnect-options-effective", Prop: "C19", Horizon: 2 * time.Hour, Weight: 6, Run: c14Run})
 }
+
+// c14ZeroReconnect: the accepted ReconnectTime 0 (retry at once) together with
+// a MaxReconnectTime: the first attempts are refused, the dialer carries on
+// and connects as soon as the peer accepts; growing the delay from zero must
+// not upset it.
+func c14ZeroReconnect(w *W) {
+	kind := []string{"pair", "req", "push", "bus", "sub"}[w.Choose(simrt.SShape, 5)]
+	M := []time.Duration{10 * time.Millisecond, time.Second, 0}[w.Choose(simrt.SShape, 3)]
+	nref := 1 + w.Choose(simrt.SShape, 4)
+	w.SetShape("kind", kind)
+	w.SetShape("M", M.String())
+	w.SetShape("refusals", nref)
+	mn := w.UseMsgNet()
+	addr := w.Addr("msg")
+	ep := mn.Endpoint(addr)
+	for i := 0; i < nref; i++ {
+		ep.Plan = append(ep.Plan, "refuse")
+	}
+	attempts := 0
+	ep.OnDial = func(outcome string) { attempts++ }
+	var got []*MsgPipe
+	ep.OnPipe = func(p *MsgPipe) { got = append(got, p) }
+	s := w.Sock(kind)
+	defer s.Close()
+	d, err := s.NewDialer(addr, map[string]interface{}{mangos.OptionReconnectTime: time.Duration(0), mangos.OptionMaxReconnectTime: M, mangos.OptionDialAsynch: true})
+	if err != nil {
+		if err == mangos.ErrBadValue {
+			w.Probe("zero-reconnect-time-not-accepted")
+			return
+		}
+		w.Failf("HARNESS/newdialer", "%v", err)
+		return
+	}
+	c := w.Do("Dial", func() (interface{}, error) { return nil, d.Dial() })
+	w.Sleep(2*M + time.Second)
+	w.Settle()
+	if !c.Returned() || c.Err != nil {
+		w.Failf("C14/no-redial", "%s: asynchronous Dial with ReconnectTime 0: returned=%v err=%v", kind, c.Returned(), c.Err)
+		return
+	}
+	if len(got) == 0 {
+		w.Failf("C14/no-redial", "%s (ReconnectTime 0, MaxReconnectTime %v): the first %d attempts were refused, the peer accepts since; %v later the dialer has made %d attempts and is not connected", kind, M, nref, w.Now(), attempts)
+		return
+	}
+	w.Delivery++
+	w.Probe("reconnect-time-zero-with-maximum")
+}
+
+func init() {
+	register(&Scenario{Name: "dialer-reconnect-time-zero", Prop: "C14", Horizon: time.Hour, Weight: 1, Run: c14ZeroReconnect})
+}
